@@ -49,6 +49,13 @@ def gen_cases(tier, seed):
             s = bases.rand_shell(rng, l, t=t, emin=0.05, emax=500.0, Kmax=4, Mmax=3)
             s.pop("_cls")
             shells.append(s)
+        if i % 6 == 0:
+            # two uncontracted s shells with different exponents (the simplest pair there is)
+            for s_ in shells[:2]:
+                j_ = int(np.argmin(s_["e"])) if i % 12 else 0
+                s_["e"], s_["k"] = [s_["e"][j_]], [[1.0] * len(s_["k"][0])]
+            if abs(shells[0]["e"][0] / shells[1]["e"][0] - 1) < 0.05:
+                shells[1]["e"] = [shells[1]["e"][0] * 3.7]
         # geometry: shell 0 at origin-ish; shell 1 at the bracketing distance of a chosen tolerance; others 0..30 bohr
         t0 = float(TOLS[int(rng.integers(len(TOLS)))])
         side = [1 - 1e-6, 1 + 1e-6][i % 2]
